@@ -14,6 +14,32 @@ def _rayon(n):
 
 
 PLAN = {
+    "C04": {
+        "level": "fault_enumeration",
+        "engines": lambda tier: [_e("release", "faultmc", "c04")],
+        "assumptions": [
+            "which bytes a checksum covers comes from the harness's independent decoder (own CRC-32C, layout tables), not from the library",
+            "containers are small (0.4-7 KB); quick: 8 containers, thorough: 26 containers plus pairs of positions on the small ones",
+            "collisions of blake3/CRC are not considered",
+        ],
+    },
+    "C05": {
+        "level": "fault_enumeration",
+        "engines": lambda tier: [_e("release", "faultmc", "c05")],
+        "assumptions": [
+            "the structural dump is what the public reader API returns (pack infos, index headers, every entry's variant and values, content sizes, content hashes)",
+            "a node absent from the altered dump is accepted only because counts/lengths are always dumped next to it",
+        ],
+    },
+    "C06": {
+        "level": "fault_enumeration",
+        "engines": lambda tier: [_e("release", "faultmc", "c06"), _e("dev", "faultmc", "c06")],
+        "assumptions": [
+            "hang detection is wall-clock based: 10 s without an answer (typical case: a few ms), confirmed alone with 30 s",
+            "each case runs in a worker process; process death is attributed to the case in flight",
+            "damage that keeps every CRC valid by construction of an attacker is outside the claim and is not enumerated",
+        ],
+    },
     "C01": {
         "level": "model_checking",
         "engines": lambda tier: [_e("release", "seqmc", "c01", "--shards", "4")],
